@@ -67,7 +67,7 @@ ActiveAfter(as, t) ==
 BgVerdict(r) ==
     IF Has(r, "abort") THEN V("C18", "the process died or hung in a background scenario")
     ELSE LET i == r.input IN
-    IF i.pattern \in {"sync", "sync-busy"} THEN
+    IF i.pattern \in {"sync", "sync-busy", "sync-fault"} THEN
         LET w == r.sync_wakes n == Len(w) IN
         IF n = 0 THEN V("C18", "interval sync never ran")
         ELSE IF MaxGap(w, 0, 0) > r.interval_ms + SlackMs \/ r.observed_ms - w[n] > r.interval_ms + SlackMs
@@ -96,7 +96,7 @@ BgVerdict(r) ==
         ELSE IF ~(\E k \in 2..Len(r.merge_starts) : r.merge_starts[k] <= r.merge_starts[1] + r.interval_ms + r.jitter_ms + SlackMs)
                THEN V("C18", "after a background merge failed no further merge is attempted although the trigger is still exceeded")
         ELSE OK
-    ELSE IF i.pattern \in {"frag", "dead", "late-del"} THEN
+    ELSE IF i.pattern \in {"frag", "dead", "late-del", "frag-reopen"} THEN
         IF ~r.can_merge THEN V("drift", "the write pattern did not cross the trigger")
         ELSE IF i.pattern = "late-del" /\ r.merges_before_crossing > 0 THEN V("C18", "a merge ran although no merge trigger was exceeded yet (pattern late-del)")
         ELSE IF ~(\E k \in 1..Len(r.merge_starts) : r.merge_starts[k] <= r.crossed_at + r.interval_ms + r.jitter_ms + SlackMs)
